@@ -285,6 +285,8 @@ func init() {
 		gen: func(rng *rand.Rand, tier string, n int, emit func(string)) {
 			emit("S:612f62 H:612f23 S:612f62 H:23 S:63 S:612f62")
 			emit("S:61 S:61 H:61 S:61 H:2b S:61 S:62 H:62 S:62")
+			// the same filter string registered twice with another matching filter in between: registration order is the call order
+			emit("H:73656e736f722f2b2f74656d70 H:73656e736f722f23 H:73656e736f722f2b2f74656d70 S:73656e736f722f312f74656d70 H:23 H:73656e736f722f23 S:73656e736f722f312f74656d70")
 			// topics deeper than every registered filter, the deepest filters ending in + / #
 			emit("H:73706f72742f2b H:2b S:73706f72742f74656e6e69732f706c6179657231 S:612f62 S:73706f72742f74656e6e6973 H:2b2f2b2f23 S:612f62 S:612f622f632f64")
 			emit("H:2b2f2b S:61 S:612f62 S:612f622f63 S:612f622f632f64 S:2f2f2f")
